@@ -79,6 +79,9 @@ func (g *Gen) layout(t types.Type) []Comp {
 		}
 	case *types.Tuple:
 		for i := 0; i < u.Len(); i++ {
+			if b, ok := u.At(i).Type().(*types.Basic); ok && b.Kind() == types.Invalid {
+				continue // unused component of a map iterator tuple
+			}
 			for _, c := range g.layout(u.At(i).Type()) {
 				out = append(out, Comp{fmt.Sprintf("#%d%s", i, c.Path), c.Sort, c.GT, c.Kind})
 			}
@@ -214,6 +217,7 @@ type Gen struct {
 	curPos  token.Pos
 	bodyless bool
 	strConsts map[string]Val
+	famDeclLine map[string]int
 	curLoop *loopInfo
 	famLeaf map[string]IntInfo
 	strBases []Term
@@ -310,6 +314,7 @@ func (g *Gen) famTerm(st *State, fam string, sort string) Term {
 	if !g.declFam[fam] {
 		g.declFam[fam] = true
 		g.famSort[fam] = sort
+		g.famDeclLine[fam] = len(g.lines)
 		g.emit(fmt.Sprintf("(declare-const %s %s)", name, sort))
 		g.famAxiom(Term{name, sort}, fam)
 	}
